@@ -90,7 +90,7 @@ impl Parser {
             && grouping_fields.is_empty()
             && fields
                 .iter()
-                .all(|expr| expr.get_required_fields().is_empty())
+                .all(|expr| expr.get_required_fields().is_empty() && !expr.reads_entry())
         {
             limit = 1;
         }
